@@ -21,7 +21,7 @@ ANCHORS = ["State.__eq__", "Lanelet.__eq__", "Obstacle.__eq__", "Obstacle.__hash
            "TrafficSign.__eq__", "Intersection.__eq__"]
 REQUIRED = ["law.reflexive", "law.deepcopy", "law.symmetric", "law.twin", "law.perturbation", "law.hash-total",
             "law.hash-consistent", "defaults-instance", "law.kwargs-order", "law.cross-class-state", "law.optional-subsets", "law.derived-attribute-twin",
-            "coordinates-of-different-magnitude", "law.after-update_initial_state", "law.assembly-twin",
+            "coordinates-of-different-magnitude", "law.after-update_initial_state", "law.assembly-twin", "law.moved-after-compared",
             "class.Polygon.large", "class.Lanelet.large"]
 ASSUMPTIONS = ["perturbations are clearly different valid values (never a reordering or a duplicate)",
                "real perturbations are >= 1e-6, i.e. far above the documented 1e-10 resolution"]
@@ -638,6 +638,37 @@ def run(ctx):
                         ha, hb = safe(hash, a9[1]), safe(hash, b9[1])
                         if ha[0] == "ok" and hb[0] == "ok" and ha[1] != hb[1]:
                             V("equal-but-hash-differs", "assembly-twin")
+        # L10 equality is about the CURRENT attribute values: an object that was compared and hashed, then moved in place
+        # (translate_rotate), equals -- and hashes like -- a twin that went through the same motion without ever having
+        # been compared or hashed before; both relate to the object at the old place in the same way
+        if not use_defaults and hasattr(x, "translate_rotate"):
+            import numpy as np_
+            w10, c10 = safe(lambda: build()[0]), safe(lambda: build()[0])
+            if w10[0] == "ok" and c10[0] == "ok":
+                old10 = safe(copy.deepcopy, c10[1])
+                _ = safe(hash, w10[1]), eq_ops(w10[1], x), eq_ops(w10[1], w10[1])  # fills whatever is memoised
+                tr10, an10 = np_.array([3.5, -2.25]), 0.5
+                mw, mc = safe(lambda: w10[1].translate_rotate(tr10, an10)), safe(lambda: c10[1].translate_rotate(tr10, an10))
+                if mw[0] == "ok" and mc[0] == "ok":
+                    mw = mw[1] if mw[1] is not None else w10[1]
+                    mc = mc[1] if mc[1] is not None else c10[1]
+                    ctx.feature("law.moved-after-compared")
+                    ctx.counter("law.moved-after-compared." + name)
+                    ctx.evaluation()
+                    r = eq_ops(mw, mc)
+                    if r[0] == "exc":
+                        V("eq-raises-%s/moved-after-compared" % type(r[1]).__name__, repr(r[1]))
+                    elif r[1] != (True, True, False, False):
+                        V("moved-after-compared-differs-from-moved-twin", "x==y -> %s" % (r[1],))
+                    else:
+                        ha, hb = safe(hash, mw), safe(hash, mc)
+                        if ha[0] == "ok" and hb[0] == "ok" and ha[1] != hb[1]:
+                            V("equal-but-hash-differs", "moved-after-compared")
+                        if old10[0] == "ok":
+                            ra, rb = eq_ops(mw, old10[1]), eq_ops(mc, old10[1])
+                            if ra[0] == "ok" and rb[0] == "ok" and ra[1] != rb[1]:
+                                V("moved-after-compared-still-equals-old-place", "compared-then-moved vs old: %s; "
+                                  "moved twin vs old: %s" % (ra[1], rb[1]))
         # L7 every optional argument on its own / left out on its own (one-sided combinations of optional arguments):
         # such objects are built through the public constructor too, so ==, hash and deepcopy must work on them
         if not use_defaults and k % 2 == 1:
